@@ -263,6 +263,34 @@ func runC15(c *Check) {
 		if len(apps) != 1 {
 			return
 		}
+		// a paged listing counts what it has seen, not what it kept: the Offset of a query in
+		// the root computation must not be derived from the length of the list that the
+		// reserved-key filter shortens (each filtered key would shift the next page back by one
+		// and a hashed key would be listed twice)
+		for _, b := range root.Blocks {
+			for _, in := range b.Instrs {
+				st, ok := in.(*ssa.Store)
+				if !ok {
+					continue
+				}
+				fa, ok := st.Addr.(*ssa.FieldAddr)
+				if !ok || fieldLabel(fa.X.Type(), fa.Field) != "Offset" || !strings.HasSuffix(fa.X.Type().String(), "query.Query") {
+					continue
+				}
+				ot := TermOf(st.Val, &Ctx{Fn: root})
+				if ot.Op == "const" {
+					continue
+				}
+				dependsOnKept := len(apps) == 1 && ot.Contains(func(x *Term) bool {
+					return (x.IsCall("len") || (x.Op == "call" && x.Name == "len")) && len(x.Args) == 1 && strings.Contains(x.Args[0].String(), "append(") && rootOf(x.Args[0]) != nil
+				})
+				if dependsOnKept {
+					c.Bad("C15-R3", "computeStateRoot ⟂ paging-offset-counts-entries-seen", fnName(root), p.InstrPos(in), "the query Offset is derived from the length of the filtered key list ("+trunc(ot.String(), 80)+"): every reserved key filtered out of a page shifts the next page back by one, a hashed key is listed twice, and the root depends on which bookkeeping keys exist", nil)
+				} else {
+					c.OK("C15-R3", "computeStateRoot ⟂ paging-offset-counts-entries-seen", fnName(root), p.InstrPos(in), "the paging offset does not depend on the filtered list", true)
+				}
+			}
+		}
 		// R3
 		sorts := g.Select(IsCall("sort.Strings"))
 		gets := g.Select(func(n *Node) bool { return dsCall(n, "Get") })
